@@ -5,7 +5,7 @@
  *     events : ADV <us> | USEC | MSEC | SEC        (real uptime_usec / uptime_msec / uptime_sec)
  *     outputs: U <kind 2|3|4> <hi32> <lo32>
  *
- *  CFG <boot_1> <n> <late> 1 <13 device numbers as in harness/drv/c08.c> <boot_2> ... <boot_k>
+ *  CFG <boot_1> <n> <late> 1 <10 device numbers as in harness/drv/c08.c> <plain button type> <flags | at_cap << 8> <boot_2> ... <boot_k>
  *        whole device, the SAME scenario is run once per boot value (a forked child each, clean globals):
  *     outputs: RUN <k> <boot>, then the devsim lines of that run (GPIO/WIRE/CONNECT/DISCONNECT/RESTART with
  *              times relative to boot) and ZEROSAMPLE <t> when system_get_time() returned exactly 0
@@ -71,7 +71,9 @@ static void build_cfg(long long *a, unsigned boot, char *out, size_t cap) {
                     9 + 2 * i, a[4], a[5], 1 + 2 * i, 10 + 2 * i, a[4], a[5], 2 + 2 * i); first = 0;
     }
     /* a[14]: type of one button on gpio 15 bound to the plain relay (gpio 0) */
-    if (a[14] > 0) o += snprintf(out + o, cap - o, "%s15:%lld:%lld:0:255:0", first ? "" : ",", a[14], a[15]);
+    /* a[15]: low 8 bits = input flags, upper bits = action-trigger capabilities (then the button is AT channel 5) */
+    if (a[14] > 0) o += snprintf(out + o, cap - o, "%s15:%lld:%lld:0:%d:%lld", first ? "" : ",", a[14], a[15] & 0xFF,
+                                 (a[15] >> 8) ? 5 : 255, a[15] >> 8);
   }
   if (n > 0) {
     o += snprintf(out + o, cap - o, " motor=");
